@@ -186,6 +186,19 @@ Theorem reset_forgets_ops : forall (checked : bool) (cfg : config) (t0 : N) (ops
   = decisions_ops checked cfg t0 ops1 ++ Ok Passed :: decisions_ops checked cfg1 t ops2.
 Proof. exact reset_forgets_ops_model. Qed.
 
+(** ... and such a call comes within [check_every] (current value) calls when no setter intervenes. *)
+Theorem reset_within_check_every_ops : forall (checked : bool) (cfg : config) (t0 : N) (ops1 : list op) (h2 : list event) (R : N),
+  let cfg1 := config_after cfg ops1 in
+  reset_after cfg1 = Some R -> check_every cfg1 <> usize_max ->
+  h2 <> [] -> check_every cfg1 <= N.of_nat (length h2) ->
+  Forall (fun e => R <= snd e - win_start (state_after_ops checked cfg t0 ops1)) h2 ->
+  exists p a t s, h2 = p ++ (a, t) :: s /\
+    state_after_ops checked cfg t0 (ops1 ++ map reg_of (p ++ [(a, t)])) = init t /\
+    decisions_ops checked cfg t0 (ops1 ++ map reg_of (p ++ [(a, t)]))
+    = decisions_ops checked cfg t0 ops1 ++ repeat (Ok Passed) (S (length p)) /\
+    (p = [] \/ N.of_nat (length p) < check_every cfg1).
+Proof. exact reset_within_check_every_ops_model. Qed.
+
 Theorem iteration_never_overflows_ops : forall (checked : bool) (cfg : config) (t0 : N) (ops : list op),
   cfgs_ok cfg ops -> iteration (state_after_ops checked cfg t0 ops) + 1 <= usize_max.
 Proof. exact iteration_ops_bounded. Qed.
@@ -305,6 +318,12 @@ Example ex_reset_ops_hyp :
   5 <= 20 - win_start (state_after_ops true ex_cfg 0 ops1) /\
   decisions_ops true ex_cfg 0 (ops1 ++ Reg 1 20 :: [Reg 1 21; Reg 1 22]) = [Ok Passed; Ok Send; Ok Passed; Ok Passed; Ok Send].
 Proof. vm_compute. repeat split; discriminate. Qed.
+
+Example ex_reset_within_ops_hyp :
+  let ops1 := [Reg 1 0; Reg 1 1; SetReset (Some 5); SetEvery 2] in
+  Forall (fun e => 5 <= snd e - win_start (state_after_ops true ex_cfg 0 ops1)) [(1, 20); (2, 21)] /\
+  check_every (config_after ex_cfg ops1) <= N.of_nat (length [(1, 20); (2, 21)]).
+Proof. split; [repeat constructor; vm_compute; discriminate|vm_compute; discriminate]. Qed.
 
 (** accept loop: address 1 is dropped at accept (after an accept error in between);
     address 2 is then served normally. *)
